@@ -26,6 +26,25 @@ CLAIMED = {
          PV_NOTE + "; RSA-PSS (ring) and Poly1305 primitives are shared with the library"),
  "C09": ("pv", "exhaustive length/prefix/hex sweeps + generated arbitrary text under catch_unwind (proptest); thorough adds a libFuzzer target",
          "Every decoded payload length 0..=400 per header/layer, every prefix/suffix/deletion of authentic tokens and every hex-key length 0..=200 are enumerated completely; arbitrary token text is generated (20k quick / 600k thorough). Any unwind is a violation keyed by panic location.", PV_NOTE),
+ "C10": ("pv", "history invariant over N generated builds per (version, builder, mode): pairwise-distinct nonces/tokens + per-bit Hoeffding bound + per-byte variety",
+         "24 histories of 20,000 (quick) / 100,000 (thorough) builds under one key with identical or varying claims and with one builder built repeatedly; nonce fields must be pairwise distinct, every nonce bit within N/2 +- sqrt(30N), every byte position varied.",
+         PV_NOTE + "; observes the OS RNG, unpredictability itself is not decidable by observation"),
+ "C11": ("pv", "model-based: generated instants x renderings (offset, fraction, separator, zone) and non-timestamp values placed in exp of authentic tokens, accept/reject model with don't-care classes; proptest + deterministic offset grid",
+         "PasetoParser::default() on authentic tokens of all 8 protocols whose exp is past/future (log-uniform distance from 2 s to 1971 / 60 s to year 9000) in every UTC offset and fraction form, or a non-timestamp JSON value; must reject past and malformed, accept absent and strict future.", PV_NOTE + "; reads the wall clock with >= 2 s / >= 60 s margins"),
+ "C12": ("pv", "model-based as C11 for nbf plus all (exp, nbf) class combinations; proptest + deterministic grid",
+         "Same space as C11 with the direction reversed for nbf and the 25 (exp class x nbf class) combinations; accept iff exp in {absent, future} and nbf in {absent, past}.", PV_NOTE + "; reads the wall clock with margins"),
+ "C13": ("pv", "stateful model-based testing of PasetoBuilder call histories: exhaustive to length 5/6 over a 9-operation alphabet + proptest-generated histories to length 30; payload read back through GenericParser",
+         "Every token returned by any build of any history (incl. repeated builds) must satisfy the exp/acknowledgement rule, the creation-time defaults (iat = nbf = creation instant, exp = +3600 s exactly) and carry every supplied value; exhaustive short histories on v4.local, generated ones on all protocols.", PV_NOTE + "; reads the wall clock around Default::default() with +-1 s slack"),
+ "C14": ("pv", "stateful model-based testing of GenericBuilder set/remove/build histories against a reference map; generated JSON trees and native Rust values; proptest",
+         "GenericParser must return exactly the model map at every build of every generated history (overwrite, removal, nested, non-ASCII, native-typed, registered claims), on all 8 protocols.", PV_NOTE + "; serde_json is the oracle's JSON library"),
+ "C15": ("pv", "model-based: expectation sets related to the token's claim set by construction, sequences of 1-6 tokens through one parser, iff-oracle incl. error variant; proptest",
+         "accept iff every expected claim is present, non-null and JSON-equal; Missing(k) for a single absent claim; outcome independent of parse history; GenericParser and PasetoParser on all 8 protocols.", PV_NOTE),
+ "C16": ("pv", "model-based with instrumented 'static validator functions (thread-local call log) over authentic and unauthenticated tokens, sequences through one parser; proptest",
+         "Validators run only for authenticated tokens, see exactly payload[key], run at most once, a rejecting verdict fails the parse with a claim error, success implies every validator ran once.", PV_NOTE),
+ "C17": ("pv", "stateful model-based testing of PasetoBuilder call histories: exhaustive to length 4/5 over a 12-operation alphabet + proptest-generated histories to length 40",
+         "At every build of every history: a repeated key => DuplicateTopLevelPayloadClaim naming a duplicated key and no token, now and later; no repeat => success with every supplied value; exp-after-acknowledgement latitude honoured.", PV_NOTE),
+ "C18": ("pv", "exhaustive sweep of all 69,905 keys of length <= 4 over a 16-symbol alphabet x 13 constructor/value-type forms + generated decorated keys and RFC 3339 / non-date strings; proptest",
+         "Reserved(k) iff key is exactly one of the seven, for every constructor form and value type; time-claim constructors accept every generated RFC 3339 date-time verbatim and reject the must-reject domain.", PV_NOTE),
  "C20": ("c20-driver", "exhaustive enumeration of generated feature configurations with an accept oracle (cargo check/run) and ddmin shrinking",
          "Every configuration of the stated lattice (quick: singletons, pairs, full, default, none x 3 layers; thorough: all 255 x 3) is compiled and, for the run subset, executed with one round trip per enabled protocol and layer; monotonicity pairs S<S' compiled. Exhaustive in thorough.",
          "trusts cargo/rustc of the image; the smoke program performs one round trip per protocol and layer only"),
